@@ -90,9 +90,77 @@ def _xref_ops(c):
     return ops
 
 
+_ri = None
+
+
+def _ri_server():
+    """OAuth2 token endpoint with the resource-indicator policy (RFC 8707) configured, JWT access tokens"""
+    global _ri
+    if _ri is None:
+        import opbase
+        from idpyoidc.server.oauth2.token import Token as OToken
+        from idpyoidc.server.oauth2.token_helper import validate_resource_indicators_policy
+        more = {"token": {"path": "token", "class": OToken, "kwargs": {"client_authn_method": opbase.CLIAUTH, "resource_indicators": {
+            "policy": {"function": validate_resource_indicators_policy, "kwargs": {"resource_servers_per_client": {"client_1": ["client_2"], "client_2": ["client_1"]}}}}}}}
+        sv = opbase.make_op(jwt_tokens=True, more_endpoints=more)
+        ctx = sv.context
+        ctx.cdb["client_1"]["allowed_scopes"] = ["openid", "profile", "offline_access"]
+        ctx.cdb["client_2"]["allowed_scopes"] = ["openid", "email", "profile", "offline_access", "address"]
+        _ri = sv
+    return _ri
+
+
+def _ri_impl(c):
+    import opbase
+    sv = _ri_server()
+    ctx = sv.context
+    cid = "client_1"
+    o = {}
+    out = opbase.authz(sv, cid, scope=tuple(c["asked"]), state="st-ri")
+    code = out.get("response_args", {}).get("code") if isinstance(out, dict) else None
+    if not code:
+        return {"r": "authz-refused"}
+    al = ctx.cdb[cid]["allowed_scopes"]
+    o["authorised"] = sorted(set(c["asked"]) & set(al))
+    kw = {"resource": ["client_2"]}
+    if c["redeem_scope"] is not None:
+        kw["scope"] = " ".join(c["redeem_scope"])
+    tr = opbase.token(sv, code, cid, **kw)
+    ra = tr.get("response_args") if isinstance(tr, dict) else None
+    if not ra or "access_token" not in ra:
+        return dict(o, r="redeem-refused", why=str(tr)[:120])
+    def views(at, resp_scope):
+        v = {"response": sorted(resp_scope if isinstance(resp_scope, list) else str(resp_scope or "").split())}
+        sm = ctx.session_manager
+        for node in sm.db.db.values():
+            for t in getattr(node, "issued_token", []):
+                if t.value == at:
+                    v["session"] = sorted(t.scope)
+        js = _jwt_scope(at)
+        v["jwt"] = sorted(js) if js is not None else None
+        it = opbase.introspect(sv, at, cid)
+        ir = it.get("response_args", {}) if isinstance(it, dict) else {}
+        sc = ir.get("scope", "")
+        v["introspect"] = sorted(sc.split() if isinstance(sc, str) else sc) if ir.get("active") else None
+        return v
+    o["redeem"] = views(ra["access_token"], ra.get("scope"))
+    o["refresh_issued"] = "refresh_token" in ra
+    if "refresh_token" in ra:
+        rr = opbase.refresh(sv, ra["refresh_token"], cid)
+        r2 = rr.get("response_args") if isinstance(rr, dict) else None
+        if r2 and "access_token" in r2:
+            o["refresh"] = views(r2["access_token"], r2.get("scope"))
+    o["r"] = "ok"
+    return o
+
+
 def cases(rng, tier):
     n = {"quick": 60, "thorough": 900, "search": 600}[tier]
     out = []
+    # resource indicators at the OAuth2 token endpoint: the redeem request names a resource server and may state a scope of its own
+    for asked in (["openid", "offline_access"], ["openid", "profile"], ["openid", "profile", "offline_access", "email"]):
+        for rs in (None, ["openid"], ["openid", "profile", "email", "offline_access"], ["address"]):
+            out.append({"t": "ri", "asked": asked, "redeem_scope": rs})
     for oidc in (True, False):
         for cl, other in (("client_1", "client_2"), ("client_2", "client_3"), ("client_3", "client_1")):
             for _ in range({"quick": 1, "thorough": 4, "search": 3}[tier]):
@@ -210,6 +278,8 @@ def _jwt_scope(tok):
 
 
 def impl(c):
+    if c["t"] == "ri":
+        return _ri_impl(c)
     if c["t"] == "grant2":
         return _grant2_impl(c)
     ops = _ops_for(c)
@@ -241,6 +311,8 @@ def _owner(R, hnd):
 
 
 def model_lines(c, obs):
+    if c["t"] == "ri":
+        return []          # the resource-indicator policy is outside the provider model: the oracle states the property
     if c["t"] == "grant2":
         a = G2_CLIENTS[c["client"]]
         return ["prov\tccscope\t" + ("none" if a is None else "some:" + enc_list(a))]
@@ -248,6 +320,8 @@ def model_lines(c, obs):
 
 
 def compare(c, obs, outs):
+    if c["t"] == "ri":
+        return []
     if c["t"] == "grant2":
         if obs["r"] != "ok":
             return [f"{c['grant']} grant of {c['client']} did not complete: {obs}"]
@@ -258,6 +332,23 @@ def compare(c, obs, outs):
 
 def oracle(c, obs):
     v = []
+    if c["t"] == "ri":
+        if obs["r"] != "ok":
+            return v
+        auth = set(obs["authorised"])
+        for step in ("redeem", "refresh"):
+            vw = obs.get(step)
+            if not vw:
+                continue
+            for name in ("session", "jwt", "introspect"):
+                if vw.get(name) is not None and not set(vw[name]) <= auth:
+                    v.append({"cls": "scope-escalation", "config": "resource-indicators", "step": step, "view": name, "extra": sorted(set(vw[name]) - auth)})
+            tok = vw.get("session")
+            if tok is not None and vw["response"] != tok:
+                v.append({"cls": "views-disagree", "config": "resource-indicators", "step": step, "view": "response", "stated": vw["response"], "token": tok})
+        if obs.get("refresh_issued") and "offline_access" not in auth:
+            v.append({"cls": "refresh-token-without-offline-access", "config": "resource-indicators"})
+        return v[:3]
     if c["t"] == "grant2":
         if obs["r"] != "ok":
             return v
@@ -316,13 +407,15 @@ def known_key(c, v, known):
 
 
 def classify(c, obs):
+    if c["t"] == "ri":
+        return "ri:" + obs["r"]
     if c["t"] == "grant2":
         return f"grant2:{c['grant']}:{c['client']}:{obs['r']}"
     return ("oidc" if c["oidc"] else "oauth2") + ":" + ("jwt" if c["jwt"] else "opaque") + (":deny-" + c["deny"] if c.get("deny") else "")
 
 
 def nontrivial(c, obs):
-    if c["t"] == "grant2":
+    if c["t"] in ("grant2", "ri"):
         return True
     return any((o[0] == "refresh" and o[3] is not None) or (o[0] == "exchange" and st["raw"][0] == "exchanged")
                for o, st in zip(obs["ops"], obs["steps"]))
